@@ -208,7 +208,7 @@ func (p UDP) AppendPayload(b []byte) (UDP, error) {
 type TCP []byte
 
 func (p TCP) IsValid() error {
-	if len(p) >= 20 {
+	if len(p) >= 20 && p.HeaderLen() >= 20 && len(p) >= p.HeaderLen() { // data offset counts 32-bit words, minimum 5
 		return nil
 	}
 	return fmt.Errorf("invalid tcp len=%d: %w", len(p), ErrFrameLen)
@@ -218,7 +218,7 @@ func (p TCP) SrcPort() uint16  { return binary.BigEndian.Uint16(p[0:2]) }
 func (p TCP) DstPort() uint16  { return binary.BigEndian.Uint16(p[2:4]) }
 func (p TCP) Seq() uint32      { return binary.BigEndian.Uint32(p[4:8]) }
 func (p TCP) Ack() uint32      { return binary.BigEndian.Uint32(p[8:12]) }
-func (p TCP) HeaderLen() int   { return int(p[12] >> 4) }
+func (p TCP) HeaderLen() int   { return int(p[12]>>4) * 4 } // data offset in 32-bit words -> bytes
 func (p TCP) NS() bool         { return p[12]&0x01 != 0 }
 func (p TCP) FIN() bool        { return p[13]&0x01 != 0 }
 func (p TCP) SYN() bool        { return p[13]&0x02 != 0 }
@@ -231,4 +231,4 @@ func (p TCP) CWR() bool        { return p[13]&0x80 != 0 }
 func (p TCP) Window() uint16   { return binary.BigEndian.Uint16(p[14:16]) }
 func (p TCP) Checksum() uint16 { return binary.BigEndian.Uint16(p[16:18]) }
 func (p TCP) Urgent() uint16   { return binary.BigEndian.Uint16(p[18:20]) }
-func (p TCP) Payload() []byte  { return p[p[12]>>4:] }
+func (p TCP) Payload() []byte  { return p[p.HeaderLen():] }
